@@ -5,6 +5,7 @@ import (
 	"fmt"
 	"io"
 	"net"
+	"strings"
 	"sync/atomic"
 	"time"
 
@@ -98,6 +99,10 @@ func genC15(seed uint64, run int, tier string) Scenario {
 			it.Cmd = byte(between(r, 241, 249)) // NOP .. GA
 		case "data":
 			it.Text = pick(r, "login: ", "\r\nWelcome\r\n", "User Access Verification\r\n\r\nUsername: ", "é日本", word(r, lower+" ", 1, 20))
+			if r.IntN(40) == 0 {
+				// a long banner in the middle of the opening (around and beyond common buffer sizes)
+				it.Text = strings.Repeat(word(r, lower+" ", 20, 60)+"\r\n", 1+pick(r, 4090, 8190, 8200, 16400)/40)
+			}
 		}
 		sc.Items = append(sc.Items, it)
 	}
